@@ -831,8 +831,30 @@ func c09TCP(r *Report, s *Sem, R5 string) {
 				if g == nil || g.Pkg != p.Lime {
 					return false
 				}
+				sameValue := func(a, b ssa.Value) bool {
+					if stripConv(a) == stripConv(b) {
+						return true
+					}
+					// a variable captured by a function literal lives in a cell: compare what the two loads can yield
+					la, lb := leaves(a), leaves(b)
+					if len(la) == 0 || len(la) != len(lb) {
+						return false
+					}
+					for _, x := range la {
+						found := false
+						for _, y := range lb {
+							if stripConv(x) == stripConv(y) {
+								found = true
+							}
+						}
+						if !found {
+							return false
+						}
+					}
+					return true
+				}
 				for i, a := range c.Call.Args {
-					if stripConv(a) == hsConn && i < len(g.Params) && buildsDecoderOver(g, i) {
+					if sameValue(a, hsConn) && i < len(g.Params) && buildsDecoderOver(g, i) {
 						fresh = true
 						return true
 					}
